@@ -5,6 +5,7 @@ package main
 
 import (
 	"fmt"
+	"strconv"
 	"strings"
 )
 
@@ -144,6 +145,79 @@ func casesC02(g *Gen) []*Case {
 			c := evalCase("truthy_ternary", src, nil)
 			c.Oracle = expectOut(want)
 			cs = append(cs, c)
+		}
+	}
+	// long chains that test one variable against literals: still the first truthy branch
+	{
+		escLit := func(x string) string {
+			r := strings.NewReplacer("&", "&amp;", "<", "&lt;", ">", "&gt;")
+			return r.Replace(x)
+		}
+		lits := []string{"a", "<i>", "b&c", "x>y", "&lt;i&gt;", "plain", "it's", "q", "<i>", "z"}
+		for n := 3; n <= 9; n++ {
+			for _, withElse := range []bool{false, true} {
+				var sb strings.Builder
+				for k := 0; k < n; k++ {
+					if k == 0 {
+						sb.WriteString("@if(tag == " + quoteLit(lits[k], '"') + ")B0")
+					} else {
+						sb.WriteString("@elseif(tag == " + quoteLit(lits[k], '"') + ")B" + strconv.Itoa(k))
+					}
+				}
+				if withElse {
+					sb.WriteString("@else E")
+				}
+				sb.WriteString("@end")
+				vals := append([]string{"nomatch", ""}, lits[:n]...)
+				for _, l := range lits[:n] {
+					vals = append(vals, escLit(l))
+				}
+				for _, v := range vals {
+					want := ""
+					if withElse {
+						want = " E"
+					}
+					for k := 0; k < n; k++ {
+						if v == escLit(lits[k]) {
+							want = "B" + strconv.Itoa(k)
+							break
+						}
+					}
+					c := evalCase("long_chains", sb.String(), gvMap("tag", gvStr(v)))
+					c.Oracle = expectOut(want)
+					cs = append(cs, c)
+				}
+				// the same with integers, and a chain whose conditions differ in shape
+				var si strings.Builder
+				for k := 0; k < n; k++ {
+					kw := "@elseif"
+					if k == 0 {
+						kw = "@if"
+					}
+					si.WriteString(fmt.Sprintf("%s(num == %d)N%d", kw, k*k-3, k))
+				}
+				if withElse {
+					si.WriteString("@else E")
+				}
+				si.WriteString("@end")
+				for v := -4; v <= 64; v += 1 {
+					want := ""
+					if withElse {
+						want = " E"
+					}
+					for k := 0; k < n; k++ {
+						if v == k*k-3 {
+							want = "N" + strconv.Itoa(k)
+							break
+						}
+					}
+					if want != "" && want != " E" || v%7 == 0 {
+						c := evalCase("long_chains", si.String(), gvMap("num", gvInt(int64(v))))
+						c.Oracle = expectOut(want)
+						cs = append(cs, c)
+					}
+				}
+			}
 		}
 	}
 	// tiny and negative non-zero floats from the data are truthy, in every truthiness site
@@ -380,6 +454,39 @@ func casesC03(g *Gen) []*Case {
 		c.Oracle = expectOut(want)
 		cs = append(cs, c)
 	}
+	// the counter of a @for started from a variable, from loop metadata or from an element is its own value:
+	// stepping it changes nothing else
+	for src, want := range map[string]string{
+		"@each(x in [5, 6])@for(j = loop.index; j < 3; j++){{ j }}@end|{{ loop.index }}{{ loop.iter }};@end": "012|01;12|12;",
+		"{{ n = 3 }}@for(i = n; i > 0; i--){{ i }}@end{{ n }}":                                               "3213",
+		"@for(i = cnt; i > 0; i--){{ i }}@end{{ cnt }}|@for(i = cnt; i < 5; i++){{ i }}@end{{ cnt }}":         "3213|343",
+		"@each(v in xs)@for(k = v; k < v + 2; k++){{ k }}@end@end|@each(v in xs){{ v }}@end":                 "122334|123",
+		"{{ f = 1.5 }}@for(g = f; g < 3.0; g++){{ g }}@end{{ f }}":                                           "1.52.51.5",
+		"@for(i = xs[0]; i < 3; i++){{ i }}@end{{ xs }}":                                                     "121, 2, 3",
+		"@for(i = o.n; i < 3; i++){{ i }}@end{{ o.n }}":                                                      "121",
+		"@each(a in [1, 2])@each(b in [7, 8, 9])@for(q = loop.iter; q < 4; q++)@end{{ loop.iter }}@end;{{ loop.iter }}@end": "123;1123;2",
+	} {
+		c := evalCase("for_counter_is_its_own_value", src, gvMap("xs", gvList(gvInt(1), gvInt(2), gvInt(3)), "cnt", gvInt(3), "o", gvMap("n", gvInt(1))))
+		c.Oracle = expectOut(want)
+		cs = append(cs, c)
+	}
+	// loop metadata is visible in whatever a pass renders: component files, slot bodies, insert blocks of a layout loop
+	{
+		t := newTree()
+		t.files["tpl/c.tw"] = `[{{ loop.index }}/{{ loop.iter }}{{ loop.first ? "F" : "" }}{{ loop.last ? "L" : "" }}]`
+		t.files["tpl/w.tw"] = `<@slot>`
+		t.files["tpl/layouts/l.tw"] = `@each(q in [1, 2])(@reserve("b"))@end@each(r in [5, 6]){@reserve("c")}@end`
+		t.files["tpl/p1.tw"] = `@each(x in xs)@component("c")@end`
+		t.files["tpl/p2.tw"] = `@each(a in [1, 2])@each(y in [7, 8, 9])@component("c")@end;@component("c")@end`
+		t.files["tpl/p3.tw"] = `@each(x in xs)@component("w")@slot{{ loop.iter }}{{ loop.last }}@end@end@end`
+		t.files["tpl/p4.tw"] = `@use("~l")@insert("b"){{ loop.index }}{{ loop.last ? "L" : "" }}@end@insert("c", loop.iter)`
+		d := gvMap("xs", gvList(gvInt(1), gvInt(2), gvInt(3)))
+		c := histCase("loop_metadata_in_components", t, []string{opNew("tpl", ".tw", "", false), opStr("p1", d), opStr("p2", d), opStr("p3", d), opStr("p4", d)},
+			"NewTemplate; pages whose loops render components, slots and insert blocks that read loop.*")
+		c.Oracle = expectResults(map[int]func(string) string{0: wantNewOK, 1: wantOK("[0/1F][1/2][2/3L]"),
+			2: wantOK("[0/1F][1/2][2/3L];[0/1F][0/1F][1/2][2/3L];[1/2L]"), 3: wantOK("<10><20><31>"), 4: wantOK("(0)(1L){1}{2}")})
+		cs = append(cs, c)
+	}
 	// a control directive in the @else body of an inner loop acts on the loop around it, and what follows
 	// the inner loop in the outer body is skipped / kept accordingly
 	for src, want := range map[string]string{
@@ -530,6 +637,97 @@ func casesC04(g *Gen) []*Case {
 			cs = append(cs, miniCase("retype_loop_var", []*MS{{K: "assign", N: "x", X: lit(a)}, {K: "each", N: "x", X: lit(marr(bb)), Body: []*MS{{K: "print", X: rd("x")}}}, txt("|"), {K: "print", X: rd("x")}}, nil))
 			cs = append(cs, miniCase("retype_data", []*MS{{K: "if", Conds: []MX{lit(mb(true))}, Bods: [][]*MS{{{K: "assign", N: "x", X: lit(bb)}}}}, {K: "print", X: rd("x")}}, map[string]MV{"x": a}))
 		}
+	}
+	// a @for without an init clause (or with a bare expression there) is a scope like every other loop
+	for src, want := range map[string]string{
+		"{{ n = 0 }}@for(; n < 3; n = n + 1){{ n }}@end|{{ n }}":                         "012|0",
+		"{{ n = 0 }}@for(n; n < 2; n = n + 1){{ n }}{{ m = n }}@end|{{ n }}":             "01|0",
+		"{{ n = 0 }}@for(; n < 2; n = n + 1)x@end{{ n = \"s\" }}{{ n }}":                "ERR cannot assign",
+		"@for(; false; )x@else{{ z = 1 }}e@end{{ z }}":                                  "ERR 'z'",
+		"{{ n = 0 }}@for(; n < 2; n = n + 1){{ m = n }}@end{{ m }}":                     "ERR 'm'",
+		"@for(;;){{ w = 1 }}@break@end{{ w }}":                                          "ERR 'w'",
+		"{{ k = 7 }}@for(;;){{ k = 8 }}{{ k }}@break@end{{ k }}":                         "87",
+		"@each(v in [1])@for(; false;)@else{{ v = 5 }}@end{{ v }}@end":                   "1",
+	} {
+		c := evalCase("for_without_init_is_a_scope", src, nil)
+		if strings.HasPrefix(want, "ERR ") {
+			part := strings.TrimPrefix(want, "ERR ")
+			c.Oracle = func(c *Case, impl string) string { return wantErr(part)(impl) }
+		} else {
+			c.Oracle = expectOut(want)
+		}
+		cs = append(cs, c)
+	}
+	// very deep nesting: every level is its own scope, the innermost assignment wins inside and is gone outside
+	for _, depth := range []int{3, 8, 11, 12, 13, 16, 24, 40} {
+		for variant := 0; variant < 6; variant++ {
+			var sb strings.Builder
+			var want strings.Builder
+			sb.WriteString("{{ v = 0 }}")
+			// which levels assign v: all of them, one near the top, two, every fourth, ...
+			assigns := func(l int) bool {
+				switch variant {
+				case 0:
+					return true
+				case 1:
+					return l == 3
+				case 2:
+					return l == 1 || l == 5
+				case 3:
+					return l%4 == 0
+				case 4:
+					return l == depth-1
+				}
+				return l == 2 || l == depth/2
+			}
+			vals := []int{0}
+			for l := 1; l <= depth; l++ {
+				switch (l + variant) % 3 {
+				case 0:
+					sb.WriteString("@if(true)")
+				case 1:
+					sb.WriteString("@each(e in [1])")
+				default:
+					sb.WriteString("@for(z = 0; z < 1; z++)")
+				}
+				cur := vals[len(vals)-1]
+				if assigns(l) {
+					sb.WriteString(fmt.Sprintf("{{ v = %d }}", l))
+					cur = l
+				}
+				vals = append(vals, cur)
+				sb.WriteString("{{ v }},")
+				want.WriteString(fmt.Sprintf("%d,", cur))
+			}
+			for l := depth; l >= 1; l-- {
+				sb.WriteString("{{ v }};@end")
+				want.WriteString(fmt.Sprintf("%d;", vals[l]))
+			}
+			sb.WriteString("{{ v }}")
+			want.WriteString("0")
+			c := evalCase("deep_scopes", sb.String(), nil)
+			c.Oracle = expectOut(want.String())
+			cs = append(cs, c)
+		}
+		// a loop variable named like a data key, and the loop object of every level
+		var sb, want strings.Builder
+		for l := 1; l <= depth; l++ {
+			sb.WriteString(fmt.Sprintf("@each(who in [%d, %d])", l, l+100))
+		}
+		sb.WriteString("{{ who }}{{ loop.index }}@break")
+		want.WriteString(fmt.Sprintf("%d0", depth))
+		for l := depth; l >= 1; l-- {
+			sb.WriteString("@end")
+			if l > 1 {
+				sb.WriteString("{{ who }}{{ loop.last }}@break")
+				want.WriteString(fmt.Sprintf("%d0", l-1))
+			}
+		}
+		sb.WriteString("|{{ who }}")
+		want.WriteString("|-7")
+		c := evalCase("deep_scopes", sb.String(), gvMap("who", gvInt(-7)))
+		c.Oracle = expectOut(want.String())
+		cs = append(cs, c)
 	}
 	// names bound by a construct vanish afterwards
 	cs = append(cs, miniCase("vanish", []*MS{{K: "each", N: "x", X: lit(marr(mi(1))), Body: []*MS{txt("in")}}, {K: "print", X: rd("x")}}, nil))
